@@ -149,7 +149,7 @@ Section Decode.
     end.
 
   (* map entry: `for iNdEx < postIndex`; subfields 1 and 2 decoded by kind WITHOUT a wire-type
-     check and bounded by the end of the buffer; anything else skipped (bounded by postIndex) *)
+     check, bounded by the end of the entry; anything else skipped (bounded by postIndex) *)
   Fixpoint entry_loop (child : child_t) (fuel : nat) (kk : kind) (t : ftype) (k : Z)
            (key value : val) (rest : list byte) : outcome (val * val) :=
     match fuel with
@@ -162,15 +162,30 @@ Section Decode.
         | Some (raw, _, rest1) =>
           let fieldNum := s32 (u64 raw / 8) in
           let used r := (Z.of_nat (length rest) - Z.of_nat (length r))%Z in
+          (* a key or value must end inside its entry (`> postIndex` checks, and `if iNdEx > postIndex` after the
+             subfield): a message value that would run past the entry is rejected before it is decoded *)
           if (fieldNum =? 1)%Z then
             match dec_scalar kk rest1 with
             | None => Err
-            | Some (v, r) => entry_loop child f kk t (k - used r)%Z v value r
+            | Some (v, r) => if (k - used r <? 0)%Z then Err else entry_loop child f kk t (k - used r)%Z v value r
             end
           else if (fieldNum =? 2)%Z then
-            match dec_item child t value rest1 with
-            | Ok (v, r) => entry_loop child f kk t (k - used r)%Z key v r
-            | Err => Err | Panic => Panic | OutOfFuel => OutOfFuel
+            match t with
+            | TScalar kd =>
+              match dec_scalar kd rest1 with
+              | None => Err
+              | Some (v, r) => if (k - used r <? 0)%Z then Err else entry_loop child f kk t (k - used r)%Z key v r
+              end
+            | TMsg m =>
+              match take_len rest1 with
+              | None => Err
+              | Some (payload, r) =>
+                if (k - used r <? 0)%Z then Err
+                else match child m value payload with
+                     | Ok v => entry_loop child f kk t (k - used r)%Z key v r
+                     | Err => Err | Panic => Panic | OutOfFuel => OutOfFuel
+                     end
+              end
             end
           else
             match Skip rest with
